@@ -343,7 +343,11 @@ func c16Inventory(r *R, scs []sliceCall, mcs []mapCall) {
 	}
 	have["Filter2DMapCollection"] = true // same loop as FilterMapCollection, exercised in C14
 	fset := token.NewFileSet()
-	files, _ := filepath.Glob("/repo/*.go")
+	repo := os.Getenv("VERIF_REPO")
+	if repo == "" {
+		repo = "/repo"
+	}
+	files, _ := filepath.Glob(repo + "/*.go")
 	var missing []string
 	for _, f := range files {
 		if strings.HasSuffix(f, "_test.go") {
